@@ -36,6 +36,7 @@ func main() {
 		{"ConstsGen.v", genConsts},
 		{"PointIndexGen.v", genPointIndex},
 		{"LineGen.v", genLine},
+		{"ChildrenGen.v", genChildren},
 		{"TmsData.v", genTmsData},
 		{"CliGen.v", genCli},
 	}
